@@ -23,6 +23,8 @@ import (
 	"encoding/binary"
 	"fmt"
 	"os"
+	"path/filepath"
+	"runtime"
 	"sort"
 	"strings"
 	"time"
@@ -863,11 +865,11 @@ func main() {
 			continue
 		}
 		o.Case(k)
-		wd := time.AfterFunc(120*time.Second, func() {
+		wd := time.AfterFunc(300*time.Second, func() {
 			buf := make([]byte, 1<<20)
 			buf = buf[:runtime.Stack(buf, true)]
 			_ = os.WriteFile(filepath.Join(f.Out, fmt.Sprintf("hang-%d.txt", k)), buf, 0o644)
-			o.Fail("hang", k, "case did not finish within 120 s (goroutine dump in hang-%d.txt)", k)
+			o.Fail("hang", k, "case did not finish within 300 s (goroutine dump in hang-%d.txt)", k)
 			o.Close()
 			os.Exit(0)
 		})
